@@ -122,6 +122,11 @@ func (vc *VC) entry() {
 			if vc.c.clauseMode(cl) != vc.modeName() {
 				continue
 			}
+			if vc.ringMode && strings.Contains(cl.Src, "fe(") {
+				// the transfer of a ring-mode proof to GF(p) is the transfer of polynomial identities; a
+				// hypothesis on ring values would make it an implication between equations, which does not transfer
+				panic(fmt.Sprintf("ring mode: a precondition may not constrain ring values: %s", cl.Src))
+			}
 			vc.assume(vc.compileClause(env, cl))
 		}
 	}
@@ -150,7 +155,7 @@ func (vc *VC) execReturn(ins *ssa.Return) {
 	}
 	env := vc.contractEnv(vc.fn, vc.fn.Signature, vc.paramVals, res, vc.cur.heap, vc.heap0)
 	for i, cl := range vc.c.Ensures {
-		if vc.c.clauseMode(cl) != vc.modeName() {
+		if vc.c.clauseMode(cl) != vc.modeName() || cl.Mode == "ringax" {
 			continue
 		}
 		t := vc.compileClause(env, cl)
@@ -214,6 +219,32 @@ func (vc *VC) checkFrameAt(r, o string, pos token.Pos) {
 // havocRegion: the callee may write the cells denoted by assigns target v (and nothing else of that object).
 func (vc *VC) havocRegion(h *Heap, v *Val) {
 	r, o, n := vc.regionOf(v)
+	if vc.ringMode {
+		// the abstract ring values of the written elements. For a pointer target the elements that can be
+		// written are those starting at the leaf arrays of the pointed-to type (typed pointers do not partially
+		// overlap): one precise ghost store per element start. Windows of slices are havocked as a range.
+		old := h.m["fe"]
+		starts := []int64(nil)
+		if v.K == KPtr && n != "" && o != "" {
+			starts = leafStarts(layoutOf(v.T.Underlying().(*types.Pointer).Elem()), 0, nil)
+		}
+		switch {
+		case len(starts) > 0 && len(starts) <= 64:
+			for _, st := range starts {
+				cell := bvBin("bvadd", o, off64(st))
+				cur := h.m["fe"]
+				h.m["fe"] = vc.define("H", heapSort("fe"), sto(cur, r, sto(sel(cur, r), cell, vc.fresh("fev", "Int"))))
+			}
+		case n != "" && o != "":
+			inner := vc.fresh("A", innerSort("fe"))
+			j := "j!"
+			vc.assume(fmt.Sprintf("(forall ((%s (_ BitVec 64))) (! (=> (not (bvult %s %s)) (= %s %s)) :pattern (%s)))", j,
+				bvBin("bvsub", j, o), n, sel(inner, j), sel(sel(old, r), j), sel(inner, j)))
+			h.m["fe"] = vc.define("H", heapSort("fe"), sto(old, r, inner))
+		default:
+			h.m["fe"] = vc.define("H", heapSort("fe"), sto(old, r, vc.fresh("A", innerSort("fe"))))
+		}
+	}
 	if n == "" {
 		vc.havocObj(h, r, vc.elemComps(v))
 		return
@@ -627,6 +658,9 @@ func (vc *VC) applyContract(ins *ssa.Call, c *Contract, f *ssa.Function, sig *ty
 			} else if rn != "" && sEq(rn, off64(0)) != "false" {
 				// an empty callee window cannot be written
 				vc.checkFrameIfAt(sNot(sEq(rn, off64(0))), rr, ro, ins.Pos())
+			} else if v.K == KPtr && sEq(rr, "0") != "false" {
+				// nothing can be written through a nil pointer
+				vc.checkFrameIfAt(sNot(sEq(rr, "0")), rr, ro, ins.Pos())
 			} else {
 				vc.checkFrameAt(rr, ro, ins.Pos())
 			}
@@ -664,6 +698,9 @@ func (vc *VC) applyContract(ins *ssa.Call, c *Contract, f *ssa.Function, sig *ty
 	for _, cl := range c.Ensures {
 		if c.clauseMode(cl) != vc.modeName() {
 			continue // postconditions stated in the other integer mode are not used here (sound: fewer assumptions)
+		}
+		if cl.Mode == "ringax" {
+			vc.note("ring-level statement of %s [%s] taken from its limb-level contract (ringax)", shortKey(c.Key), cl.Label)
 		}
 		vc.assume(sImp(vc.cur.pc, vc.compileClause(env2, cl)))
 	}
@@ -985,4 +1022,23 @@ func (vc *VC) splitFuncCall(ins *ssa.Call, fv *Val) bool {
 		vc.vals[ins] = vc.iteVals(conds, results, last.T)
 	}
 	return true
+}
+
+// leafStarts: cell offsets at which an element (an array of scalars, or a scalar) starts within layout l.
+func leafStarts(l *Layout, base int64, out []int64) []int64 {
+	switch {
+	case l.Elem != nil && l.Elem.Kind != KAgg:
+		return append(out, base)
+	case l.Elem != nil:
+		for i := int64(0); i < l.Len && len(out) <= 64; i++ {
+			out = leafStarts(l.Elem, base+i*l.Elem.N, out)
+		}
+		return out
+	case l.Kind == KAgg:
+		for i, fl := range l.FL {
+			out = leafStarts(fl, base+l.Fields[i], out)
+		}
+		return out
+	}
+	return append(out, base)
 }
